@@ -805,3 +805,173 @@ pub fn replay(v: &serde_json::Value) -> bool {
         _ => false,
     }
 }
+
+// =====================================================================================================
+// jit_bulk_guard (C02, last clause: "never reads or writes outside the caller's slices")
+//
+// Every input slice is placed so that its last element is immediately followed by a PROT_NONE page
+// (and its first element immediately preceded by one): a native read or write past either end faults.
+// Each (evaluator kind, number of variables, slice length) runs in its own child process (this
+// executable re-executed with the hidden sub-command `__guard_child`), so a fault is an observable
+// failure of exactly that unit, not the death of the runner.
+// =====================================================================================================
+
+/// a region `[guard page][data .. data][guard page]` with `len` elements of T ending exactly at the upper guard
+struct Guarded<T> {
+    base: *mut u8,
+    total: usize,
+    ptr: *mut T,
+    len: usize,
+}
+
+impl<T: Copy> Guarded<T> {
+    fn new(vals: &[T]) -> Self {
+        let page = 4096usize;
+        let bytes = std::mem::size_of_val(vals);
+        let data_pages = bytes.div_ceil(page).max(1);
+        let total = (data_pages + 2) * page;
+        unsafe {
+            let base = libc::mmap(std::ptr::null_mut(), total, libc::PROT_READ | libc::PROT_WRITE, libc::MAP_PRIVATE | libc::MAP_ANONYMOUS, -1, 0) as *mut u8;
+            assert!(base as isize != -1, "mmap failed");
+            assert_eq!(libc::mprotect(base as *mut _, page, libc::PROT_NONE), 0);
+            assert_eq!(libc::mprotect(base.add(total - page) as *mut _, page, libc::PROT_NONE), 0);
+            let ptr = base.add(total - page - bytes) as *mut T;
+            std::ptr::copy_nonoverlapping(vals.as_ptr(), ptr, vals.len());
+            Guarded { base, total, ptr, len: vals.len() }
+        }
+    }
+    fn slice(&self) -> &[T] {
+        unsafe { std::slice::from_raw_parts(self.ptr, self.len) }
+    }
+}
+
+impl<T> Drop for Guarded<T> {
+    fn drop(&mut self) {
+        unsafe {
+            libc::munmap(self.base as *mut _, self.total);
+        }
+    }
+}
+
+fn guard_fn(n_vars: usize) -> (JVm, JitFunction) {
+    use fidget_core::context::Context;
+    use fidget_core::eval::MathFunction;
+    let mut ctx = Context::new();
+    let vs = [ctx.x(), ctx.y(), ctx.z()];
+    let mut acc = ctx.constant(0.25);
+    for (i, v) in vs.iter().take(n_vars).enumerate() {
+        let t = ctx.mul(*v, (i + 2) as f32).unwrap();
+        acc = ctx.add(acc, t).unwrap();
+    }
+    let second = ctx.sin(acc).unwrap();
+    let roots = [acc, second];
+    (JVm::new(&ctx, &roots).unwrap(), JitFunction::new(&ctx, &roots).unwrap())
+}
+
+fn guard_vals(n_vars: usize, len: usize) -> Vec<Vec<f32>> {
+    (0..n_vars).map(|i| (0..len).map(|k| (k as f32) * 0.375 - 3.0 + i as f32 * 0.0625).collect()).collect()
+}
+
+/// hidden sub-command: `__guard_child <f32|grad> <n_vars> <len>`; exit 0 = agrees with the VM, 3 = differs, (signal) = fault
+pub fn guard_child(args: &[String]) -> i32 {
+    let kind = args[2].as_str();
+    let n_vars: usize = args[3].parse().unwrap();
+    let len: usize = args[4].parse().unwrap();
+    let (vm, jit) = guard_fn(n_vars);
+    let vals = guard_vals(n_vars, len);
+    if kind == "f32" {
+        let regions: Vec<Guarded<f32>> = vals.iter().map(|v| Guarded::new(v)).collect();
+        let slices: Vec<&[f32]> = regions.iter().map(|g| g.slice()).collect();
+        let plain: Vec<&[f32]> = vals.iter().map(|v| v.as_slice()).collect();
+        let (vt, jt) = (vm.float_slice_tape(Default::default()), jit.float_slice_tape(Default::default()));
+        let (mut vev, mut jev) = (JVm::new_float_slice_eval(), JitFunction::new_float_slice_eval());
+        let want: Vec<Vec<f32>> = { let o = vev.eval(&vt, &plain).unwrap(); (0..o.len()).map(|k| o[k].to_vec()).collect() };
+        // twice with one evaluator object: the second call sees whatever the first one left in the evaluator
+        for round in 0..2 {
+            let o = jev.eval(&jt, &slices).unwrap();
+            let got: Vec<Vec<f32>> = (0..o.len()).map(|k| o[k].to_vec()).collect();
+            let same = got.len() == want.len() && got.iter().zip(&want).all(|(a, b)| a.len() == b.len() && a.iter().zip(b).all(|(x, y)| bits_eq(*x, *y)));
+            if !same {
+                eprintln!("round {round}: JIT {got:?} VM {want:?}");
+                return 3;
+            }
+        }
+    } else {
+        let gvals: Vec<Vec<Grad>> = vals.iter().enumerate().map(|(i, v)| v.iter().map(|x| Grad::new(*x, (i == 0) as u8 as f32, (i == 1) as u8 as f32, (i == 2) as u8 as f32)).collect()).collect();
+        let regions: Vec<Guarded<Grad>> = gvals.iter().map(|v| Guarded::new(v)).collect();
+        let slices: Vec<&[Grad]> = regions.iter().map(|g| g.slice()).collect();
+        let plain: Vec<&[Grad]> = gvals.iter().map(|v| v.as_slice()).collect();
+        let (vt, jt) = (vm.grad_slice_tape(Default::default()), jit.grad_slice_tape(Default::default()));
+        let (mut vev, mut jev) = (JVm::new_grad_slice_eval(), JitFunction::new_grad_slice_eval());
+        let want: Vec<Vec<Grad>> = { let o = vev.eval(&vt, &plain).unwrap(); (0..o.len()).map(|k| o[k].to_vec()).collect() };
+        for round in 0..2 {
+            let o = jev.eval(&jt, &slices).unwrap();
+            let got: Vec<Vec<Grad>> = (0..o.len()).map(|k| o[k].to_vec()).collect();
+            let geq = |a: &Grad, b: &Grad| bits_eq(a.v, b.v) && bits_eq(a.dx, b.dx) && bits_eq(a.dy, b.dy) && bits_eq(a.dz, b.dz);
+            let same = got.len() == want.len() && got.iter().zip(&want).all(|(a, b)| a.len() == b.len() && a.iter().zip(b).all(|(x, y)| geq(x, y)));
+            if !same {
+                eprintln!("round {round}: JIT {got:?} VM {want:?}");
+                return 3;
+            }
+        }
+    }
+    0
+}
+
+pub fn jit_bulk_guard(thorough: bool) -> Report {
+    let mut r = Report::new("jit_bulk_guard");
+    let max_len = if thorough { 8 * SIMD + 5 } else { bulk_lens() };
+    let exe = match std::env::current_exe() {
+        Ok(e) => e,
+        Err(e) => {
+            r.fail("child-spawn".into(), format!("current_exe failed: {e}"), json!({"contract":"jit_bulk_guard"}));
+            return r;
+        }
+    };
+    let mut units = vec![];
+    for kind in ["f32", "grad"] {
+        for n_vars in 1..=3usize {
+            for len in 0..=max_len {
+                units.push((kind, n_vars, len));
+            }
+        }
+    }
+    let results: Vec<(usize, Option<i32>, String)> = std::thread::scope(|s| {
+        let n_workers = 8;
+        let hs: Vec<_> = (0..n_workers)
+            .map(|w| {
+                let (units, exe) = (&units, &exe);
+                s.spawn(move || {
+                    let mut out = vec![];
+                    for (ui, (kind, n_vars, len)) in units.iter().enumerate().filter(|(ui, _)| ui % n_workers == w) {
+                        let o = std::process::Command::new(exe).args(["__guard_child", kind, &n_vars.to_string(), &len.to_string()]).output();
+                        match o {
+                            Ok(o) => out.push((ui, o.status.code(), format!("{:?}; {}", o.status, String::from_utf8_lossy(&o.stderr).lines().last().unwrap_or("").chars().take(300).collect::<String>()))),
+                            Err(e) => out.push((ui, Some(-1), format!("could not start the child: {e}"))),
+                        }
+                    }
+                    out
+                })
+            })
+            .collect();
+        hs.into_iter().flat_map(|h| h.join().unwrap()).collect()
+    });
+    for (ui, code, what) in results {
+        r.cases += 1;
+        let (kind, n_vars, len) = units[ui];
+        if code != Some(0) {
+            let cause = if code.is_none() { "fault: access outside the caller's slices (child killed by a signal)" } else { "results differ from the interpreter" };
+            r.fail(format!("{kind}:vars={n_vars}:len={len}"), format!("{cause}: {what}"), json!({"contract":"jit_bulk_guard","kind":kind,"n_vars":n_vars,"len":len}));
+        }
+    }
+    r.distinct = r.cases;
+    r.exhaustive = false;
+    r.space = format!("float-slice and grad-slice JIT evaluators x 1..=3 variables x every slice length 0..={max_len}, two outputs, each evaluator object used twice; every input slice ends at a PROT_NONE page and starts after one (a native access outside the caller's slices faults); one child process per unit; results compared bit for bit with the VM");
+    r
+}
+
+pub fn guard_replay(v: &serde_json::Value) -> bool {
+    let args: Vec<String> = vec!["".into(), "__guard_child".into(), v["kind"].as_str().unwrap_or("f32").into(), v["n_vars"].as_u64().unwrap_or(1).to_string(), v["len"].as_u64().unwrap_or(9).to_string()];
+    println!("running the unit in this process (a fault here kills the replay: that is the failure): {:?}", &args[2..]);
+    guard_child(&args) == 0
+}
